@@ -312,7 +312,52 @@ def beta_reduce(fn: ast.FunctionDef, resolve=None) -> bool:
     return changed
 
 
-def inline_value_calls(ctx: Ctx, f: Func, fn: ast.FunctionDef) -> bool:
+def beta_reduce_local_defs(fn: ast.FunctionDef) -> bool:
+    """`def covered(x): return E` defined in the body of fn (bound once, body one return) and called by its bare name
+    with plain arguments: every call `covered(a)` is E[x := a], wherever it stands (a test, an operand)."""
+    defs: Dict[str, ast.FunctionDef] = {}
+    for st in fn.body:
+        if isinstance(st, ast.FunctionDef) and not st.decorator_list:
+            body = _strip_doc(list(st.body))
+            a = st.args
+            if len(body) == 1 and isinstance(body[0], ast.Return) and body[0].value is not None and not (a.vararg or a.kwarg or a.kwonlyargs or a.defaults or a.posonlyargs):
+                if not any(isinstance(x, (ast.Yield, ast.YieldFrom, ast.Await, ast.NamedExpr, ast.Lambda)) for x in ast.walk(body[0].value)):
+                    defs[st.name] = st
+    # bound exactly once (the def itself) and not called recursively
+    for name in list(defs):
+        stores = sum(1 for x in ast.walk(fn) if (isinstance(x, ast.Name) and x.id == name and isinstance(x.ctx, ast.Store)) or (isinstance(x, ast.FunctionDef) and x.name == name and x is not fn))
+        rec = any(isinstance(x, ast.Name) and x.id == name for x in ast.walk(defs[name]))
+        if stores != 1 or rec:
+            del defs[name]
+    if not defs:
+        return False
+    changed = False
+
+    class _T(ast.NodeTransformer):
+        def visit_FunctionDef(self, node: ast.FunctionDef):
+            if node is fn:
+                self.generic_visit(node)
+            return node
+
+        def visit_Call(self, node: ast.Call):
+            nonlocal changed
+            self.generic_visit(node)
+            if isinstance(node.func, ast.Name) and node.func.id in defs and not node.keywords:
+                d = defs[node.func.id]
+                ps = [a.arg for a in d.args.args]
+                if len(ps) == len(node.args) and all(_pure_arg(a) for a in node.args):
+                    changed = True
+                    body = _strip_doc(list(d.body))
+                    return ast.copy_location(_SubstMany(dict(zip(ps, node.args))).visit(clone(body[0].value)), node)
+            return node
+
+    _T().visit(fn)
+    if changed:
+        ast.fix_missing_locations(fn)
+    return changed
+
+
+def inline_value_calls(ctx: Ctx, f: Func, fn: ast.FunctionDef, only_local: bool = False) -> bool:
     """`x = self._m(a, self._n())` where the private helpers end in their only `return <expr>`:
     helper bodies are written out in front of the statement (arguments that are such calls are hoisted into
     temporaries first, in evaluation order) and the call is replaced by the returned expression."""
@@ -328,6 +373,14 @@ def inline_value_calls(ctx: Ctx, f: Func, fn: ast.FunctionDef) -> bool:
         if not isinstance(c, ast.Call):
             return None
         name = c.func.attr if isinstance(c.func, ast.Attribute) else (c.func.id if isinstance(c.func, ast.Name) else "")
+        if only_local:
+            # a function defined inside f (any name), called by its bare name
+            if not isinstance(c.func, ast.Name):
+                return None
+            m = next((h_ for h_ in ctx.prog.funcs if h_.parent is f and h_.name == name), None)
+            if m is None or not single_tail_return(m) or any(isinstance(x, (ast.Yield, ast.YieldFrom, ast.Nonlocal)) for x in ast.walk(m.node)):
+                return None
+            return m
         if not (name.startswith("_") and not name.startswith("__")):
             return None
         m = _callee(ctx, f, c)
@@ -1245,6 +1298,9 @@ def normalised(ctx: Ctx, f: Func, steps: str = "delegation,tailcalls,calls,unrol
             round_changed |= inline_call_statements(ctx, f, fn)
         if "valuecalls" in want:
             round_changed |= inline_value_calls(ctx, f, fn)
+        if "localcalls" in want:
+            round_changed |= beta_reduce_local_defs(fn)
+            round_changed |= inline_value_calls(ctx, f, fn, only_local=True)
         if "gencalls" in want:
             round_changed |= inline_drained_generators(ctx, f, fn)
         if "multiret" in want:
